@@ -14,5 +14,5 @@ CONSTANTS
   RestMayFail = FALSE
   StoreByNumber = TRUE
   MaxFaults = 1
-INVARIANTS MagicBlockComplete
+INVARIANTS MagicBlockComplete NoCrash KeyShareConsistent
 CHECK_DEADLOCK FALSE
